@@ -1,7 +1,7 @@
 """C01 — decided on generated stylesheets: byte-exact model correspondence + reference-semantics comparison."""
 from . import sheetprop as P
 
-FEATURES = "attr,pseudo2,pseudofn,str,url,media".split(',')
+FEATURES = "attr,pseudo2,pseudofn,str,url,media,star".split(',')
 RULE = 'see harness/props/sheetprop.py: generated stylesheets with features %s; model compared byte-for-byte, reference semantics compared on the flat items read back from the output CSS by an independent reader' % FEATURES
 ASSUMPTIONS = ['the LALR parser builds the node tree that harness/gens/sheet.py:tree() predicts (checked on every case through the byte-exact output comparison); independently of that prediction, the whole pipeline from the source TEXT (coq/Model/Lex.v + Parse.v + Eval.v: compile_text) is compared byte for byte with the real compiler on every case (abstentions counted in distribution.text_pipeline)',
                'harness/readcss.py reads the produced CSS back correctly']
@@ -23,7 +23,11 @@ def nontrivial(sh):
 
 
 def run(ctx):
-    return P.run_sheets(ctx, 1, FEATURES, 120, 3000, depth=3, all_opts=True, wild=False, nontrivial=nontrivial)
+    def hook(g, rng):
+        if rng.random() < 0.25:
+            g.star_p = 0.8          # sheets with many universal selectors (several '*' in one selector list)
+        return g.sheet(nunits=rng.choice([1, 1, 2, 3]), depth=rng.randint(1, 3))
+    return P.run_sheets(ctx, 1, FEATURES, 120, 3000, depth=3, all_opts=True, wild=0.35, nontrivial=nontrivial, gen_hook=hook)
 
 
 replay = P.replay
